@@ -304,7 +304,7 @@ impl Iterator for ListIterator {
     }
 
     fn size_hint(&self) -> (usize, Option<usize>) {
-        let remaining = self.list.len().saturating_sub(self.index);
+        let remaining = self.end.min(self.list.len()).saturating_sub(self.index);
         (remaining, Some(remaining))
     }
 }
@@ -366,7 +366,7 @@ impl Iterator for TupleIterator {
     }
 
     fn size_hint(&self) -> (usize, Option<usize>) {
-        let remaining = self.tuple.len().saturating_sub(self.index);
+        let remaining = self.end.saturating_sub(self.index);
         (remaining, Some(remaining))
     }
 }
@@ -429,7 +429,10 @@ impl Iterator for MapIterator {
     }
 
     fn size_hint(&self) -> (usize, Option<usize>) {
-        let remaining = self.data.data().len().saturating_sub(self.index);
+        let remaining = self
+            .end
+            .min(self.data.data().len())
+            .saturating_sub(self.index);
         (remaining, Some(remaining))
     }
 }
